@@ -39,6 +39,15 @@ def check(case):
     state = gen.build_state(case)
     r = check_round(case, state)
     if case.get("am2"):
+        # a second object of the same class and sizes but other parameters is evaluated in between; the first must be unaffected
+        other = gen.build_state(dict(case, am=case["am2"], ph=case["ph2"]))
+        sp = other.generate_hilbert_space()
+        other.rho(sp, sp); other.normalization(sp); other.probability(sp); other.rho(sp[:1], sp[:1], expand=False)
+        try:
+            check_round(case, state)
+        except PropertyViolation as v:
+            raise PropertyViolation("after-other-object:" + v.bucket, "after evaluating another object of the same class: " + v.message, v.detail)
+    if case.get("am2"):
         gen.set_net(state.rbm_am, case["am2"])
         gen.set_net(state.rbm_ph, case["ph2"])
         try:
